@@ -170,6 +170,10 @@ impl<'a> Gram<'a> {
             | 0 | 1 => format!("{} : {}", self.pattern(depth), self.term(depth - 1)),
             | 2 => format!("= {}", self.field()),
             | 3 => format!("= {} : {}", self.field(), self.term(depth - 1)),
+            | 4 if self.rng.chance(1, 4) => {
+                let f = self.field();
+                if self.rng.chance(1, 2) { format!("{f} = ({f})") } else { format!("/{f} = ({f})") }
+            }
             | 4 => format!("{} = {}", self.field(), self.pattern_ann(depth - 1)),
             | 5 => format!("/{}", self.field()),
             | 6 => format!("/{} : {}", self.field(), self.term(depth - 1)),
@@ -369,6 +373,15 @@ impl<'a> Gram<'a> {
             | 0 | 1 => format!("{} : {}", self.term(depth), self.term(depth - 1)),
             | 2 => format!("= {}", self.field()),
             | 3 => format!("= {} : {}", self.field(), self.term(depth - 1)),
+            | 4 if self.rng.chance(1, 4) => {
+                // a payload that is the field's own name in redundant parentheses (a pun once the group is dropped)
+                let f = self.field();
+                match self.rng.below(3) {
+                    | 0 => format!("{f} = ({f})"),
+                    | 1 => format!("{f} = (({f}))"),
+                    | _ => format!("{f} = ({f} : {})", self.atom(0)),
+                }
+            }
             | 4 => format!("{} = {}", self.field(), self.term_ann(depth - 1)),
             | 5 => format!("{} :: {}", self.field(), self.term_ann(depth - 1)),
             | _ => self.term(depth),
